@@ -121,6 +121,8 @@ func vestStateStr(x *Exec, f *vestFam, ctx sdk.Context) string {
 			switch v := ai.(type) {
 			case *sdkvesting.ContinuousVestingAccount:
 				aa = append(aa, fmt.Sprintf("%s~cva~%d~%s~%s~%d~%d~%s~%s", a, v.AccountNumber, ident, coinsStr(v.OriginalVesting), v.StartTime, v.EndTime, coinsStr(v.DelegatedVesting), coinsStr(v.DelegatedFree)))
+			case *sdkvesting.DelayedVestingAccount:
+				aa = append(aa, fmt.Sprintf("%s~dva~%d~%s~%s~0~%d~%s~%s", a, v.AccountNumber, ident, coinsStr(v.OriginalVesting), v.EndTime, coinsStr(v.DelegatedVesting), coinsStr(v.DelegatedFree)))
 			case authtypes.ModuleAccountI:
 				aa = append(aa, fmt.Sprintf("%s~module~%d~%s~[]~0~0~[]~[]", a, v.GetAccountNumber(), ident))
 			case *authtypes.BaseAccount:
@@ -370,6 +372,13 @@ func execVest(x *Exec, toks []string) string {
 			ba := app.AccountKeeper.NewAccountWithAddress(x.ctx, addr).(*authtypes.BaseAccount)
 			bva := sdkvesting.NewBaseVestingAccount(ba, parseCoinsTok(toks[3]), int64Tok(toks[5]))
 			app.AccountKeeper.SetAccount(x.ctx, sdkvesting.NewContinuousVestingAccountRaw(bva, int64Tok(toks[4])))
+		case "dva":
+			if app.AccountKeeper.GetAccount(x.ctx, addr) != nil {
+				panic("v.acct dva on an existing account")
+			}
+			ba := app.AccountKeeper.NewAccountWithAddress(x.ctx, addr).(*authtypes.BaseAccount)
+			bva := sdkvesting.NewBaseVestingAccount(ba, parseCoinsTok(toks[3]), int64Tok(toks[4]))
+			app.AccountKeeper.SetAccount(x.ctx, sdkvesting.NewDelayedVestingAccountRaw(bva))
 		}
 		return "."
 	case "v.genpool":
